@@ -183,8 +183,9 @@ def mismatch_signature(m, names):
 
 
 # --------------------------------------------------------------------------- driver rounds
-def drive(ctx, binary, names, behs, random=0, trace_sample=0, seed=None):
-    job = {"names": names, "behaviours": behs, "random": random, "trace_sample": trace_sample, "max_mismatch": 60}
+def drive(ctx, binary, names, behs, random=0, trace_sample=0, seed=None, maps_per=0):
+    job = {"names": names, "behaviours": behs, "random": random, "trace_sample": trace_sample, "max_mismatch": 60,
+           "maps_per": maps_per}
     env = {"VERIF_SEED": str(seed)} if seed is not None else None
     recs, _ = vlib.run_driver(ctx, binary, stdin_obj=job, timeout=1700, env_extra=env)
     summ = [r for r in recs if r.get("kind") == "summary"]
@@ -224,7 +225,7 @@ def validate_runs(ctx, runs, label):
         judged += sum(1 for e in a if e["ev"] == "Match")
         traces.append(a)
         kept.append(r)
-    acc, rej = vlib.validate_traces(ctx, "DomainSet_Trace", "DomainSet_Trace.cfg", traces, label=label)
+    acc, rej = vlib.validate_traces(ctx, "DomainSet_Trace", "DomainSet_Trace.cfg", traces, label=label, chunk=20000)
     for idx, info in rej:
         line = info.get("line_in_trace") or 0
         ctx.violation(trace_signature(traces[idx], line),
@@ -295,7 +296,7 @@ def run(ctx):
         "expected answers come only from DomainSet.tla (TLC); Go concretizes, drives, compares",
         "duplicates of a full / domain rule: the later rule's value is the expected one (hosts-file semantics); any matching "
         "regexp / keyword rule's value is accepted",
-        "concretization: five admissible fragment maps (single letters, words, 63-octet label, digit-first / hyphen, 63-octet TLD), "
+        "concretization: five admissible fragment maps (quick: three of them per exhaustive behaviour, rotating) (single letters, words, 63-octet label, digit-first / hyphen, 63-octet TLD), "
         "random case on rule side (except regular expressions) and name side, one optional trailing dot on both sides; a defect tied "
         "to a concrete string outside these maps can be missed",
         "names with empty labels, the root name and rule text containing white space are outside the quantifier",
@@ -332,7 +333,8 @@ def run(ctx):
             if len(x["rules"]) >= 2 and any(v for v in x["x"]) and not all(v for v in x["x"]):
                 nontrivial.add(json.dumps(x, sort_keys=True))
         summ, mism, runs = drive(ctx, binary, names, behs, random=(1500 if T else 300) if gi == 0 else 0,
-                                 trace_sample=max(1, len(behs) * 5 // (300 if T else 80)))
+                                 trace_sample=max(1, len(behs) * (5 if T else 3) // (300 if T else 80)),
+                                 maps_per=0 if T or not exh else 3)
         for k in tot:
             tot[k] += summ[k]
         report_mismatches(ctx, names, mism)
